@@ -38,6 +38,8 @@ def pub_parents(p):
         ("parsed-slip132-xpub", Pub.parse(rp.xpub(R.VERSION_OF[("pub", p["testnet"], 84 if p["k"] & 1 else 49)]), testnet=p["testnet"])),
         # built from a mutable buffer the caller keeps
         ("constructed-bytearray", Pub(key=bytearray(rp.sec()), **dict(kw, chain_code=bytearray(p["c"])))),
+        # the root of a watch-only wallet built from the string (the network comes from the version prefix)
+        ("watch-only-wallet-root", __import__("btc_hd_wallet.base_wallet", fromlist=["BaseWallet"]).BaseWallet.from_extended_key(rp.xpub(vpub)).master),
     ]
 
 
@@ -116,6 +118,26 @@ def check_path(case, ctx):
                     raise Violation("C02/path/raised", "constructed node: public ckd(%d) raised %r" % (i, cur))
                 compare_pub("C02/constructed-with-parent", "below a node constructed with parent=<node>, level %d" % (lvl + 1),
                             cur, refs[lvl], p["testnet"], prv_nodes[lvl])
+    if not case.get("_sibling") and p["k"] % 4 == 0:
+        # bulk requests whose exclusive END is 2^31 (or beyond with a step): every generated index is still normal
+        for iv in ((H - 2, H), (H - 1, H), (H - 3, H + 1, 2) if p["k"] % 8 == 0 else (H - 2, H)):
+            form, root = pubs[(p["k"] // 8) % len(pubs)]
+            fresh_prv = pub_parents(p)[0]
+            st_p, kids_p = call(fresh_prv.generate_children, iv)
+            st_, kids = call(dict(pub_parents(p)[1])[form].generate_children, iv)
+            if st_p == "exc":
+                continue
+            idxs = list(range(*iv))
+            if st_ == "exc" or [k_.index for k_ in kids] != idxs:
+                raise Violation("C02/bulk/normal-interval-ending-at-2^31", "%s public parent: generate_children(%r) (indexes %r, all "
+                                "normal) gave %r; the private side returns %d children" % (form, iv, idxs, kids if st_ == "exc" else [k_.index for k_ in kids], len(kids_p)))
+            for k_pub, k_prv, i_ in zip(kids, kids_p, idxs):
+                try:
+                    rc_ = R.ckd_pub(rp.neuter(), i_)
+                except R.Invalid:
+                    continue
+                compare_pub("C02/bulk", "%s parent, bulk child %d of %r" % (form, i_, iv), k_pub, rc_, p["testnet"], k_prv)
+        ctx.count("bulk-intervals-ending-at-2^31")
     if path and not case.get("_sibling"):
         # the parent whose public key has the same x and the other parity (scalar n - k), in the same process
         check_path({"parent": dict(p, k=S.N - p["k"]), "path": path[:2], "_sibling": True}, ctx)
